@@ -120,6 +120,8 @@ def check(ctx, res) -> None:
 
     walrus_in_comprehension_rule(ctx, res, "R02.20")
     header_expression_scope_rule(ctx, res, "R02.21")
+    comprehension_iterable_scope_rule(ctx, res, "R02.23")
+    decorators_above_the_statement_rule(ctx, res, "R02.24")
     from .common import position_pair_rule
 
     position_pair_rule(ctx, res, "R02.22", ("rope.refactor.occurrences", "rope.refactor.functionutils", "rope.base.evaluate", "rope.refactor.patchedast", "rope.base.codeanalyze"))
@@ -582,6 +584,130 @@ def _same_pyname_strength_rule(ctx, res, rule: str = "R02.14") -> None:
                 f"same_pyname decides on {sorted(have) or 'nothing'} only (missing {sorted(missing)}): two different bindings that share a definition "
                 "location (an imported module and a variable on its first line; a function and its same-named parameter) are merged, so "
                 "find-occurrences reports foreign tokens and the answer depends on the query point", function=f.qualname)
+
+
+def comprehension_iterable_scope_rule(ctx, res, rule: str) -> None:
+    """R02.23 (= R01.18): the interpreter evaluates the FIRST iterable of a comprehension (`generators[0].iter`) before it enters
+    the comprehension's scope -- `[x for x in x]` loops over the outer `x`; every later iterable and every condition is
+    evaluated inside.  rope's comprehension scope covers the whole display.  (a) On the way to the final evaluation the name
+    finder moves to the parent scope under a test that reads `<node>.generators[0].iter` -- index 0, not every generator.
+    (b) The move is REPEATED while the scope reached has the offset in such an expression: the inner display of
+    `[x for x in [x for x in x]]` stands in the first iterable of the outer one, whose loop variable is also `x`."""
+    idx = ctx.idx
+    f = idx.need_func("rope.base.evaluate.ScopeNameFinder.get_primary_and_pyname_at")
+    cfg = CFG(f.node)
+    moves = []
+    for nd in cfg.nodes:
+        st = nd.ast
+        if nd.kind == "stmt" and isinstance(st, ast.Assign) and len(st.targets) == 1 and isinstance(st.targets[0], ast.Name) \
+                and isinstance(st.value, ast.Attribute) and st.value.attr == "parent" and isinstance(st.value.value, ast.Name) and st.value.value.id == st.targets[0].id:
+            moves.append(nd)
+    if not moves:
+        res.add(rule, "get_primary_and_pyname_at|first-iterable-of-a-comprehension-evaluated-in-the-parent-scope", False, f.where,
+                "the name finder never moves to the parent scope before the final evaluation: a name that stands in the first iterable of a comprehension "
+                "(`x = [1, 2]; [x for x in x]`) is looked up among the comprehension's own names", function=f.qualname)
+        return
+
+    def texts_of(t):
+        texts, todo, done = [t], [t], set()
+        while todo:
+            cur = todo.pop()
+            for c in ast.walk(cur):
+                if not isinstance(c, ast.Call):
+                    continue
+                m = None
+                if is_self_attr(c.func) and f.cls is not None:
+                    m = idx.find_method(f.cls.qualname, c.func.attr)
+                elif isinstance(c.func, ast.Name):
+                    m = idx.functions.get(f"{f.unit.modname}.{c.func.id}")
+                if m is not None and m.qualname not in done and len(done) < 12:
+                    done.add(m.qualname)
+                    texts.append(m.node)
+                    todo.append(m.node)
+        return texts
+
+    def first_iter(x) -> bool:
+        return isinstance(x, ast.Attribute) and x.attr == "iter" and isinstance(x.value, ast.Subscript) and isinstance(x.value.value, ast.Attribute) \
+            and x.value.value.attr == "generators" and isinstance(x.value.slice, ast.Constant) and x.value.slice.value == 0
+
+    best = None  # (move node, reads first iterable, reads every generator, test nodes)
+    for nd in moves:
+        gs = [t for t, pol in cfg.guards(nd.id) if pol]
+        texts = [tt for t in gs for tt in texts_of(t)]
+        has_first = any(first_iter(x) for tt in texts for x in ast.walk(tt))
+        # `for g in node.generators` / `g.iter for g in node.generators`: every iterable, also those evaluated inside
+        every = [x for tt in texts for x in ast.walk(tt) if isinstance(x, (ast.For, ast.comprehension)) and isinstance(x.iter, ast.Attribute) and x.iter.attr == "generators"]
+        mentions = any(isinstance(x, ast.Attribute) and x.attr == "generators" for tt in texts for x in ast.walk(tt))
+        cand = (nd, has_first, every, gs, mentions)
+        if best is None or (cand[4], cand[1]) > (best[4], best[1]):
+            best = cand
+    nd, has_first, every, gs, mentions = best
+    ok = has_first and not every
+    res.add(rule, "get_primary_and_pyname_at|first-iterable-of-a-comprehension-evaluated-in-the-parent-scope", ok, f"{f.unit.rel}:{nd.lineno}",
+            "a name in the first iterable of a comprehension is evaluated in the scope that contains the comprehension" if ok else
+            ("the test in front of the move to the parent scope reads the iterable of EVERY generator of a comprehension: only the first is evaluated outside -- in "
+             "`[y for x in xs for y in x]` the second iterable `x` is the loop variable, and it would be looked up outside" if every else
+             "a name that stands in the first iterable of a comprehension (`generators[0].iter`) is evaluated among the comprehension's own names: in `x = [1, 2]; "
+             "print([x for x in x], x)` the iterable resolves to the loop variable, so Rename of the module's `x` leaves `in x` behind (NameError) and Rename of the loop "
+             "variable takes the iterable along"), function=f.qualname)
+    # (b) the move sits on a cycle with its own test
+    test_nodes = [t for t in cfg.nodes if t.kind == "test" and any(t.ast is g or any(g is y for y in ast.walk(t.ast)) for g in gs)]
+    repeated = any(t.id in cfg.reachable(nd.id) for t in test_nodes) if has_first else None
+    if repeated is not None:
+        res.add(rule, "get_primary_and_pyname_at|move-to-the-parent-scope-is-repeated", repeated, f"{f.unit.rel}:{nd.lineno}",
+                "the scope reached is examined again (a display inside the first iterable of another display)" if repeated else
+                "the move to the parent scope is made once: the inner display of `[x for x in [x for x in x]]` stands in the FIRST iterable of the outer one, the scope "
+                "reached is the outer comprehension, and its loop variable `x` is taken for the module's `x` -- likewise `def f(a=[v for v in v])`, where the scope "
+                "reached is f and the default belongs to the scope around f", function=f.qualname)
+
+
+def decorators_above_the_statement_rule(ctx, res, rule: str) -> None:
+    """R02.24 (= R01.20 = R20.17): a scope's start line (`get_start()`, the `lineno` of its node) is the line of the `def` /
+    `class` keyword; the DECORATORS stand above it and are among the expressions evaluated outside.  The test "is this offset
+    in a header expression" therefore never compares the position with the start line: a lower bound `get_start() <= lineno`
+    in front of the span tests cuts the decorators off (an upper bound by `get_body_start()` is fine).  Checked in the test's
+    function and the private helpers it calls: no comparison there has `<scope>.get_start()` or `<the statement node>.lineno`
+    as an operand."""
+    idx = ctx.idx
+    f = idx.need_func("rope.base.evaluate.ScopeNameFinder.get_primary_and_pyname_at")
+    cfg = CFG(f.node)
+    tests = []
+    for nd in cfg.nodes:
+        st = nd.ast
+        if nd.kind == "stmt" and isinstance(st, ast.Assign) and len(st.targets) == 1 and isinstance(st.targets[0], ast.Name) \
+                and isinstance(st.value, ast.Attribute) and st.value.attr == "parent" and isinstance(st.value.value, ast.Name) and st.value.value.id == st.targets[0].id:
+            tests += [t for t, pol in cfg.guards(nd.id) if pol]
+    fam = []
+    for t in tests:
+        for c in ast.walk(t):
+            if isinstance(c, ast.Call) and is_self_attr(c.func) and f.cls is not None:
+                m = idx.find_method(f.cls.qualname, c.func.attr)
+                if m is not None and m not in fam:
+                    fam.append(m)
+    from .common import with_private_helpers
+    fam = list({g.qualname: g for m in fam for g in with_private_helpers(idx, m)}.values())
+    if not fam:
+        raise AnalysisError("anchor=get_primary_and_pyname_at: the header-expression test in front of the move to the parent scope not found")
+    n = 0
+    for g in fam:
+        nodes = {t.id for x in walk_local(g.node) if isinstance(x, ast.Assign) and isinstance(x.value, ast.Call) and call_name(x.value) == "get_ast"
+                 for t in x.targets if isinstance(t, ast.Name)}
+        for c in walk_local(g.node):
+            if not isinstance(c, ast.Compare):
+                continue
+            n += 1
+            ops = [c.left] + list(c.comparators)
+            bad = [o for o in ops if (isinstance(o, ast.Call) and call_name(o) == "get_start")
+                   or (isinstance(o, ast.Attribute) and o.attr == "lineno" and isinstance(o.value, ast.Name) and o.value.id in nodes)]
+            if bad:
+                res.fail(rule, f"{g.name}|no-bound-by-the-start-line#{n}", f"{g.unit.rel}:{c.lineno}",
+                         f"`{ast.unparse(c)[:80]}` bounds the header of a def / class by its start line `{ast.unparse(bad[0])}`: that is the line of the keyword, the "
+                         "decorators stand ABOVE it -- a name in `@retry(times)` over `def fetch(url, times=1)` is then looked up in fetch's own scope (the "
+                         "parameter), occurrences and go-to-definition follow the wrong binding", function=g.qualname)
+    cut = any(i.rule == rule and i.status == "fail" and "no-bound-by-the-start-line" in i.key for i in res.instances)
+    res.add(rule, "header-expression-test|decorators-are-not-cut-off", not cut, fam[0].where,
+            f"{n} comparison(s) in {[g.name for g in fam]}: " + ("one is bounded by the statement's start line, above which the decorators stand" if cut else
+                                                                  "none is bounded by the statement's start line"), functions=[g.qualname for g in fam])
 
 
 def header_expression_scope_rule(ctx, res, rule: str) -> None:
